@@ -51,6 +51,11 @@ def rule_R1(ck):
     # every format name handed to the registry by the directives / CLI exists (P9)
     used = set()
     for q in ("metacommands::make_bin", "metacommands::make_bk0010_rom", "metacommands::make_raw", "metacommands::make_wav", "metacommands::make_turbo_wav"):
+        if not ck.repo.has_func(q):
+            # the directive is not a function of that name any more (generated, renamed): which format and path each make_* statement
+            # registers is decided by executing it (DIR.route, group 'outputs')
+            ck.instance(("format-use", q, "by execution"), {"directive": q, "decided by": "DIR.route (executed)"}, fn="metacommands::<module>")
+            continue
         fn = ck.repo.func(q)
         for c in guards.calls_in(fn):
             if isinstance(c.func, ast.Name) and c.func.id in ("add_emitted_file", "add_emitted_bk_wav"):
